@@ -82,6 +82,8 @@ theorem reach_runOp (kinds : Array String) (depth : Nat) (x : GcScript.St × Boo
   | unedge a b => exact reach_applyE (o := .unedge a b) h trivial
   | deref a b => exact reach_applyE (o := .deref a b) h trivial
   | collect => exact reach_applyE (o := .collect) h trivial
+  | sdeps n ds => exact reach_applyE (o := .dump) h trivial
+  | sadd n d => exact reach_applyE (o := .dump) h trivial
 
 theorem reach_runOps (kinds : Array String) (depth : Nat) (l : List GOp)
     (x : GcScript.St × Bool) (h : Reachable x.1) :
